@@ -189,6 +189,18 @@ def readAllWith (c : Codec) : Reader → List Nat → Option Bytes
     | (_, .eof) => some []
     | (_, .err) => none
 
+/-- `WriteTo(w)` (what io.Copy uses): write what is pending in `output`, then chunk after chunk (`readChunk(nil)`:
+no direct decoding except for empty blocks) until EOF; the result is everything written to `w` -/
+def writeTo (c : Codec) : Nat → Reader → Option Bytes
+  | 0, _ => none
+  | fuel + 1, r =>
+    let pend := r.output.drop r.offset
+    match readChunk c { r with offset := r.output.length } 0 with
+    | (_, .eof) => some pend
+    | (_, .err) => none
+    | (r', .direct b) => (writeTo c fuel r').map (fun t => pend ++ (b ++ t))
+    | (r', .buffered) => (writeTo c fuel r').map (fun t => pend ++ t)
+
 /-- `WriteTo`-style consumption: chunk after chunk until EOF -/
 def drain (c : Codec) : Nat → Reader → Option Bytes
   | 0, _ => none
